@@ -20,6 +20,8 @@ func init() {
 		MustUse(c, "R-MUSTUSE", libPkgs(c), false, true)
 		NodeSwitch(c, "R-SWITCH", c.Pkg("immutable"))
 		StackBound(c, "R-STACKBOUND", c.Pkg("immutable"))
+		TrieFrag(c, "R-FRAG", c.Pkg("immutable"))
+		TrieLevel(c, "R-LEVEL", c.Pkg("immutable"))
 	})
 }
 
